@@ -65,6 +65,11 @@ func (P *Program) findIntrinsic(fn *ssa.Function) intrinsicFn {
 	if o := fn.Origin(); o != nil {
 		name = o.String()
 	}
+	if tgt, ok := P.externs[fn]; ok {
+		return func(fr *frame, _ *ssa.Function, args []value) value {
+			return fr.in.callSSA(fr, tgt, args, nil)
+		}
+	}
 	// harness runtime API (functions of the package under test named v<Upper>…)
 	if fn.Pkg == P.mainPkg && fn.Parent() == nil && fn.Signature.Recv() == nil {
 		if h, ok := harnessAPI[fn.Name()]; ok {
